@@ -40,7 +40,7 @@ def declare(ctx):
     r = ctx.r
     if "R9.1" in r.rules:
         return
-    r.rule("R9.1", "element gate: every token is sanitized; tags leave as allow-listed tags or as Characters; comments dropped", floor=20)
+    r.rule("R9.1", "element gate: every token is sanitized; tags leave as allow-listed tags or as Characters; comments dropped", floor=40)
 
 
 def element_gate(ctx):
@@ -70,17 +70,26 @@ def element_gate(ctx):
 
     def guard_hook(node, env, interp):
         t = norm(node)
-        if "self.allowed_elements" in t and isinstance(node, ast.Compare) and isinstance(node.ops[0], ast.In):
-            return env["__allowed"]
+        if isinstance(node, ast.Compare) and isinstance(node.ops[0], ast.In) and "allowed_elements" in norm(node.comparators[0]):
+            left = norm(node.left)
+            if left == "(namespace, name)":
+                return env["__own"]            # the element, in its own namespace, is on the list
+            if left == "(namespaces['html'], name)":
+                return env["__html"]           # an HTML element of that name is on the list
+            raise AnalysisError("sanitize_token: membership test of unexpected shape `%s`" % t)
         return NotImplemented
     interp = MiniInterp(ce, st.module, guard_hook=guard_hook, expr_hook=expr_hook)
     for ty in TOKEN_TYPES:
-        for allowed in (True, False):
+        for own, html_listed in ((True, True), (True, False), (False, True), (False, False)):
             for ns in (None, "http://www.w3.org/1999/xhtml", "http://www.w3.org/2000/svg"):
+                if ns is not None and ns.endswith("xhtml") and own != html_listed:
+                    continue        # for an HTML-namespaced token the two tests are the same test
                 tok = {"type": ty, "name": "x", "namespace": ns, "data": {}}
-                res = interp.run(st.node.body, {st.params()[1]: tok, "self": Opaque("self"), "__allowed": allowed})
+                res = interp.run(st.node.body, {st.params()[1]: tok, "self": Opaque("self"), "__own": own, "__html": html_listed})
                 val = res.value if res.returned else None
-                key = "sanitize_token[type=%s,allowed=%s,ns=%s]" % (ty, allowed, "None" if ns is None else ns.rsplit("/", 1)[-1])
+                # an un-namespaced token (namespace None) is an HTML element; otherwise only its own namespace counts
+                allowed = own or (ns is None and html_listed)
+                key = "sanitize_token[type=%s,listed=%s,html-listed=%s,ns=%s]" % (ty, own, html_listed, "None" if ns is None else ns.rsplit("/", 1)[-1])
                 if ty in ("StartTag", "EndTag", "EmptyTag"):
                     exp = ("CALL", "allowed_token") if allowed else ("CALL", "disallowed_token")
                     r.check("R9.1", val == exp, key, st.where,
@@ -249,6 +258,11 @@ def uri_gate(ctx, at, cfg):
         }
         if t in table:
             return table[t]
+        # the same tests against the module-level default lists (reported by R9.4) keep their meaning here
+        t2 = t.replace(" in allowed_protocols", " in self.allowed_protocols").replace(
+            " in allowed_content_types", " in self.allowed_content_types")
+        if t2 in table:
+            return table[t2]
         return NotImplemented
     interp = MiniInterp(ce, at.module, guard_hook=guard_hook)
     double = []
